@@ -18,16 +18,14 @@
    P12_offline_forgets_ring: set_offline f = fdl_new (f_p f), and the view of a fresh station is fresh_view
    (C02Proofs.ring_new_ok).
 
-   FINDING (reported, reproduced on the unmodified crate through the harness - see the end of this file): the
-   monitor as it stands is NOT sound in one corner: the station re-creates itself INSIDE a poll (second address
-   collision while listening: listen_token_telegram calls set_offline, the GAP cursor goes back to DoPoll{TS}), no
-   API event marks it, so `last` survives; after set_online and an entry into the ring without a claim the first GAP
-   request (TS+1) is compared with the stale `last`.  sweep_false_positive below is a model transcript on which
-   smonitor reports P12_sweep_order.  Therefore two theorems:
-   - sweep_monitor_sound: smonitor is silent on every model transcript on which no poll ends Offline out of a
-     non-Offline state (no_self_offline, a boolean on the transcript: the exact exclusion);
-   - sweep_monitor_fixed_sound: the monitor with the one-line repair (a poll that ends Offline forgets `last`:
-     sweep_poll_fixed) is silent on EVERY model transcript.
+   HISTORY OF THE MONITOR: a first version kept `last` over a poll that ends Offline.  That was a false positive,
+   found while proving this file: the station re-creates itself INSIDE a poll (second address collision while
+   listening: listen_token_telegram calls set_offline, the GAP cursor goes back to DoPoll{TS}), no API event marks
+   it, and after set_online and an entry into the ring without a claim the first GAP request (TS+1) was compared with
+   the stale `last` (reproduced on the unmodified crate; witness corpus/fdl/sweep-recreated-in-poll.cases, and
+   sweep_recreated_in_poll_accepted below: the model transcript of that history, with its in-poll re-creation, is
+   accepted now).  sweep_poll now forgets `last` after a poll that ends Offline, and the soundness below is
+   UNCONDITIONAL: every model transcript, no exclusion.
    No hypothesis on the applications beyond totality (apps_total): app_sends_data is not needed, the monitor itself
    discards what an application transmitted. *)
 From Coq Require Import Arith.
@@ -194,13 +192,12 @@ Proof.
 Qed.
 
 (* THE STEP.  From any station state with Rep, and any `last` that names the cursor of a polling phase: the rule is
-   silent, a new `last` names the new cursor, and a poll that ends Offline with a surviving `last` is a poll in
-   which the station re-created itself (it did not begin Offline). *)
+   silent, and a new `last` names the new cursor of a station that is not Offline. *)
 Lemma sweep_core last :
   (forall a0, last = Some a0 -> f_gap f = GapDoPoll a0 /\ f_state f <> Offline) ->
   snd (sweep_poll p (kind_of (f_state f)) last s) = [] /\
   (forall a, fst (sweep_poll p (kind_of (f_state f)) last s) = Some a ->
-     (f_state f' <> Offline -> f_gap f' = GapDoPoll a) /\ (f_state f' = Offline -> f_state f <> Offline)).
+     f_gap f' = GapDoPoll a /\ f_state f' <> Offline).
 Proof.
   intros HL. pose proof (poll_sweep_rel A ops _ _ _ _ _ _ _ _ E) as Hsw. cbn [tx_busy rx] in Hsw.
   pose proof (bv_not_short_slot f (rep_p _ _ R)) as Hss.
@@ -231,12 +228,17 @@ Proof.
         -- rewrite Hcs, app_sent_last in Hns. discriminate Hns.
         -- destruct Hkf as [K1|[K1|[K1|K1]]]; destruct K as [K|K]; rewrite K1 in K; discriminate K.
         -- destruct Hkf as [K1|[K1|[K1|K1]]]; rewrite K1 in K; discriminate K.
-    + intros a1 H1. split; [intros _|intros C; contradiction (Hoff' C)].
+    + intros a1 H1. split; [|exact Hoff'].
       destruct (v_gap_due (s_view s)); [injection H1 as <-; exact Hg'|discriminate H1].
   - (* no GAP request of the station in this poll *)
     cbn [fst snd]. split; [reflexivity|]. intros a H1.
-    destruct (v_gap_due (s_view s) && negb (claim_tx (p_address p) (kind_of (f_state f)) s)) eqn:Ec; [|discriminate H1].
-    subst last. destruct (HL a eq_refl) as (Hg0 & Hnoff). split; [|intros _; exact Hnoff]. intros Hoff'.
+    destruct (v_gap_due (s_view s) && negb (claim_tx (p_address p) (kind_of (f_state f)) s) &&
+              negb (state_kind_eqb (v_kind (s_view s)) KOffline)) eqn:Ec; [|discriminate H1].
+    subst last. destruct (HL a eq_refl) as (Hg0 & Hnoff).
+    apply andb_true_iff in Ec. destruct Ec as (Ec & Hk'). apply negb_true_iff in Hk'.
+    assert (Hoff' : f_state f' <> Offline).
+    { intros C. cbn [s poll_event s_view view_of v_kind] in Hk'. rewrite C in Hk'. discriminate Hk'. }
+    split; [|exact Hoff'].
     apply andb_true_iff in Ec. destruct Ec as (Hdue & Hcl). apply negb_true_iff in Hcl.
     cbn [s poll_event s_view view_of v_gap_due] in Hdue.
     destruct Hsw as [Hr|[(a' & Ht & (l & Hl & Hf) & Hstep & _)|[(da & _ & _ & _ & _ & Hc)|(_ & Hc)]]].
@@ -260,47 +262,7 @@ End OnePoll.
 End Step.
 
 (* ------------------------------------------------------------------------------------------ *)
-(* the one-line repair of the monitor, and the exclusion under which the monitor as it stands is sound *)
-
-(* a poll that ends Offline is a poll after which the station is a fresh one (set_offline inside the poll, or a
-   station that is offline anyway): forget the last GAP request *)
-Definition sweep_poll_fixed (p : params) (k0 : state_kind) (last : option Z) (s : pstep) : option Z * list srule :=
-  let (l, e) := sweep_poll p k0 last s in
-  (if state_kind_eqb (v_kind (s_view s)) KOffline then None else l, e).
-
-Fixpoint smonitor_from_fixed (p : params) (i : nat) (k0 : state_kind) (last : option Z) (events : list FdlOracle.event) : list (nat * srule) :=
-  match events with
-  | [] => []
-  | e :: tl =>
-      match e with
-      | EApi a v =>
-          let errs := match a, tl with
-                      | (ApiOffline | ApiNew), EPanic :: _ => []
-                      | (ApiOffline | ApiNew), _ => if fresh_view (p_address p) v then [] else [P12_offline_forgets_ring]
-                      | _, _ => []
-                      end in
-          let last' := match a with ApiOffline | ApiNew => None | _ => last end in
-          map (fun r => (i, r)) errs ++ smonitor_from_fixed p (S i) (v_kind v) last' tl
-      | EPoll s =>
-          let (last', errs) := sweep_poll_fixed p k0 last s in
-          map (fun r => (i, r)) errs ++ smonitor_from_fixed p (S i) (v_kind (s_view s)) last' tl
-      | EPanic | ETimeout => smonitor_from_fixed p (S i) k0 last tl
-      end
-  end.
-
-Definition smonitor_fixed (p : params) (events : list FdlOracle.event) : list (nat * srule) :=
-  if builder_validb p then smonitor_from_fixed p 0 KOffline None events else [].
-
-(* no poll of the transcript ends Offline out of another state (k0: state kind of the previous view) *)
-Fixpoint no_self_offline (k0 : state_kind) (events : list FdlOracle.event) : bool :=
-  match events with
-  | [] => true
-  | EApi _ v :: tl => no_self_offline (v_kind v) tl
-  | EPoll s :: tl =>
-      (negb (state_kind_eqb (v_kind (s_view s)) KOffline) || state_kind_eqb k0 KOffline) &&
-      no_self_offline (v_kind (s_view s)) tl
-  | _ :: tl => no_self_offline k0 tl
-  end.
+(* unfolding the monitor at an API event                                                        *)
 
 Lemma api_errs_nil (ts : Z) (a : api_call) (v : view) (tl : list FdlOracle.event) :
   (a = ApiOffline \/ a = ApiNew -> fresh_view ts v = true) ->
@@ -318,15 +280,6 @@ Lemma smonitor_from_api p i k0 last a v tl :
   smonitor_from p i k0 last (EApi a v :: tl) =
   smonitor_from p (S i) (v_kind v) (match a with ApiOffline | ApiNew => None | _ => last end) tl.
 Proof. intros H. cbn [smonitor_from]. rewrite api_errs_nil by exact H. reflexivity. Qed.
-
-Lemma smonitor_from_fixed_api p i k0 last a v tl :
-  (a = ApiOffline \/ a = ApiNew -> fresh_view (p_address p) v = true) ->
-  smonitor_from_fixed p i k0 last (EApi a v :: tl) =
-  smonitor_from_fixed p (S i) (v_kind v) (match a with ApiOffline | ApiNew => None | _ => last end) tl.
-Proof. intros H. cbn [smonitor_from_fixed]. rewrite api_errs_nil by exact H. reflexivity. Qed.
-
-Lemma kind_eqb_offline s : state_kind_eqb (kind_of s) KOffline = true <-> s = Offline.
-Proof. destruct s; cbn; split; intros H; try discriminate H; reflexivity. Qed.
 
 (* ------------------------------------------------------------------------------------------ *)
 (* ONE POLL, as theorems over all station states                                                *)
@@ -352,41 +305,18 @@ Proof.
   rewrite (poll_keeps_parameters A ops _ _ _ _ _ _ _ _ E). exact Hp.
 Qed.
 
-(* the monitor as it stands: one poll that does not end Offline out of another state *)
+(* one poll of the model, from every state *)
 Theorem sweep_step_sound f now busy rxb (apps : list A) f' o apps' calls k0 last :
   Rep (length apps) f -> f_p f = p -> time_ok now -> all_bytes rxb -> sweep_inv f k0 last ->
   poll ops f now (mkPhyIn busy rxb) apps = Ok (f', o, apps', calls) ->
-  (f_state f' = Offline -> f_state f = Offline) ->
   let s := poll_event now busy rxb f' o calls in
   snd (sweep_poll p k0 last s) = [] /\
   Rep (length apps') f' /\ f_p f' = p /\ sweep_inv f' (v_kind (s_view s)) (fst (sweep_poll p k0 last s)).
 Proof.
-  intros R Hp Hnow Hrx (-> & HL) E Hex s.
-  destruct (sweep_core A ops p f f' now busy rxb apps apps' o calls R Hp E last HL) as (H1 & H2). fold s in H1, H2.
-  split; [exact H1|]. destruct (poll_keeps_rep _ _ _ _ _ _ _ _ _ R Hp Hnow Hrx E) as (R' & Hp').
-  split; [exact R'|]. split; [exact Hp'|]. split; [reflexivity|].
-  intros a Ha. destruct (H2 a Ha) as (G1 & G2).
-  assert (Hn : f_state f' <> Offline) by (intros C; exact (G2 C (Hex C))).
-  split; [exact (G1 Hn)|exact Hn].
-Qed.
-
-(* the repaired monitor: every poll *)
-Theorem sweep_step_fixed_sound f now busy rxb (apps : list A) f' o apps' calls k0 last :
-  Rep (length apps) f -> f_p f = p -> time_ok now -> all_bytes rxb -> sweep_inv f k0 last ->
-  poll ops f now (mkPhyIn busy rxb) apps = Ok (f', o, apps', calls) ->
-  let s := poll_event now busy rxb f' o calls in
-  snd (sweep_poll_fixed p k0 last s) = [] /\
-  Rep (length apps') f' /\ f_p f' = p /\ sweep_inv f' (v_kind (s_view s)) (fst (sweep_poll_fixed p k0 last s)).
-Proof.
   intros R Hp Hnow Hrx (-> & HL) E s.
   destruct (sweep_core A ops p f f' now busy rxb apps apps' o calls R Hp E last HL) as (H1 & H2). fold s in H1, H2.
-  unfold sweep_poll_fixed. destruct (sweep_poll p (kind_of (f_state f)) last s) as [l e]. cbn [fst snd] in *.
   split; [exact H1|]. destruct (poll_keeps_rep _ _ _ _ _ _ _ _ _ R Hp Hnow Hrx E) as (R' & Hp').
-  split; [exact R'|]. split; [exact Hp'|]. split; [reflexivity|].
-  intros a Ha. cbn [s poll_event s_view view_of v_kind] in Ha.
-  destruct (state_kind_eqb (kind_of (f_state f')) KOffline) eqn:Ek; [discriminate Ha|].
-  assert (Hn : f_state f' <> Offline) by (intros C; apply kind_eqb_offline in C; rewrite C in Ek; discriminate Ek).
-  destruct (H2 a Ha) as (G1 & _). split; [exact (G1 Hn)|exact Hn].
+  split; [exact R'|]. split; [exact Hp'|]. split; [reflexivity|exact H2].
 Qed.
 
 End StepTheorems.
@@ -416,42 +346,13 @@ Qed.
 
 Theorem smonitor_from_sound : forall ins f apps buf tl i last,
   RJ A p f apps buf -> sweep_inv f (kind_of (f_state f)) last -> ins_ok tl ins ->
-  no_self_offline (kind_of (f_state f)) (model_events A ops p f apps buf ins) = true ->
   smonitor_from p i (kind_of (f_state f)) last (model_events A ops p f apps buf ins) = [].
-Proof.
-  induction ins as [|x ins IH]; intros f apps buf tl i last HJ HI Hok Hex; [reflexivity|].
-  destruct x as [a|now busy nb]; cbn [model_events] in *; cbn [ins_ok] in Hok.
-  - destruct (api_result p a f) as [f'| |] eqn:Ea.
-    + cbn [no_self_offline] in Hex. destruct (sweep_inv_api a f f' last Ea HI) as (HI' & Hnew).
-      rewrite smonitor_from_api.
-      * exact (IH _ _ _ _ _ _ (rj_api A p Hbv _ _ _ _ _ HJ Ea) HI' Hok Hex).
-      * intros Ha. destruct HJ as (_ & Hp & _).
-        destruct (Hnew Ha) as [En|En]; [|rewrite Hp in En]; exact (fdl_new_fresh _ _ En).
-    + destruct a; reflexivity.
-    + destruct a; reflexivity.
-  - destruct Hok as (_ & Hnow & Hnb & Hok).
-    destruct (poll ops f now (mkPhyIn busy (buf ++ nb)) apps) as [[[[f' o] apps'] calls]| |] eqn:Ep; try reflexivity.
-    cbn [smonitor_from no_self_offline] in *.
-    apply andb_true_iff in Hex. destruct Hex as (Hex1 & Hex).
-    assert (Hself : f_state f' = Offline -> f_state f = Offline).
-    { intros C. cbn [poll_event s_view view_of v_kind] in Hex1. rewrite C in Hex1. cbn in Hex1. apply kind_eqb_offline. exact Hex1. }
-    destruct HJ as (R & Hp & Hb).
-    assert (Hrx : all_bytes (buf ++ nb)) by (unfold all_bytes in *; apply Forall_app; split; assumption).
-    destruct (sweep_step_sound A ops p Happs f now busy (buf ++ nb) apps f' o apps' calls _ last R Hp Hnow Hrx HI Ep Hself) as (H1 & _ & _ & HI').
-    destruct (sweep_poll p (kind_of (f_state f)) last (poll_event now busy (buf ++ nb) f' o calls)) as [last' errs].
-    cbn [fst snd] in H1, HI'. subst errs. cbn [map app].
-    exact (IH _ _ _ _ _ _ (rj_poll A ops p Happs _ _ _ _ _ _ _ _ _ _ (conj R (conj Hp Hb)) Hnow Hnb Ep) HI' Hok Hex).
-Qed.
-
-Theorem smonitor_from_fixed_sound : forall ins f apps buf tl i last,
-  RJ A p f apps buf -> sweep_inv f (kind_of (f_state f)) last -> ins_ok tl ins ->
-  smonitor_from_fixed p i (kind_of (f_state f)) last (model_events A ops p f apps buf ins) = [].
 Proof.
   induction ins as [|x ins IH]; intros f apps buf tl i last HJ HI Hok; [reflexivity|].
   destruct x as [a|now busy nb]; cbn [model_events] in *; cbn [ins_ok] in Hok.
   - destruct (api_result p a f) as [f'| |] eqn:Ea.
     + destruct (sweep_inv_api a f f' last Ea HI) as (HI' & Hnew).
-      rewrite smonitor_from_fixed_api.
+      rewrite smonitor_from_api.
       * exact (IH _ _ _ _ _ _ (rj_api A p Hbv _ _ _ _ _ HJ Ea) HI' Hok).
       * intros Ha. destruct HJ as (_ & Hp & _).
         destruct (Hnew Ha) as [En|En]; [|rewrite Hp in En]; exact (fdl_new_fresh _ _ En).
@@ -459,45 +360,29 @@ Proof.
     + destruct a; reflexivity.
   - destruct Hok as (_ & Hnow & Hnb & Hok).
     destruct (poll ops f now (mkPhyIn busy (buf ++ nb)) apps) as [[[[f' o] apps'] calls]| |] eqn:Ep; try reflexivity.
-    cbn [smonitor_from_fixed] in *.
+    cbn [smonitor_from] in *.
     destruct HJ as (R & Hp & Hb).
     assert (Hrx : all_bytes (buf ++ nb)) by (unfold all_bytes in *; apply Forall_app; split; assumption).
-    destruct (sweep_step_fixed_sound A ops p Happs f now busy (buf ++ nb) apps f' o apps' calls _ last R Hp Hnow Hrx HI Ep) as (H1 & _ & _ & HI').
-    destruct (sweep_poll_fixed p (kind_of (f_state f)) last (poll_event now busy (buf ++ nb) f' o calls)) as [last' errs].
+    destruct (sweep_step_sound A ops p Happs f now busy (buf ++ nb) apps f' o apps' calls _ last R Hp Hnow Hrx HI Ep) as (H1 & _ & _ & HI').
+    destruct (sweep_poll p (kind_of (f_state f)) last (poll_event now busy (buf ++ nb) f' o calls)) as [last' errs].
     cbn [fst snd] in H1, HI'. subst errs. cbn [map app].
     exact (IH _ _ _ _ _ _ (rj_poll A ops p Happs _ _ _ _ _ _ _ _ _ _ (conj R (conj Hp Hb)) Hnow Hnb Ep) HI' Hok).
 Qed.
 
 End Transcripts.
 
-(* the monitor as the check runs it, on the transcripts on which no poll ends Offline out of another state *)
+(* the monitor as the check runs it: for all parameters (it only looks at builder-valid ones), EVERY model transcript *)
 Theorem sweep_monitor_sound (A : Type) (ops : app_ops A) (p : params) :
   apps_total A ops ->
   forall (apps : list A) (ins : list minput), ins_ok 0 ins ->
-  no_self_offline KOffline (model_transcript A ops p apps ins) = true ->
   smonitor p (model_transcript A ops p apps ins) = [].
 Proof.
-  intros Happs apps ins Hok Hex. unfold smonitor. destruct (builder_validb p) eqn:Eb; [|reflexivity].
+  intros Happs apps ins Hok. unfold smonitor. destruct (builder_validb p) eqn:Eb; [|reflexivity].
   apply builder_validb_valid in Eb. unfold model_transcript in *.
   destruct (fdl_new p) as [f0| |] eqn:E0; try reflexivity.
-  cbn [no_self_offline] in Hex. rewrite smonitor_from_api by (intros _; exact (fdl_new_fresh _ _ E0)).
+  rewrite smonitor_from_api by (intros _; exact (fdl_new_fresh _ _ E0)).
   assert (HI : sweep_inv f0 (kind_of (f_state f0)) None) by (split; [reflexivity|discriminate]).
   exact (smonitor_from_sound A ops p Happs Eb ins f0 apps [] 0 1%nat None
-           (rj_new A p Eb _ _ _ E0 (Forall_nil _)) HI Hok Hex).
-Qed.
-
-(* the repaired monitor: every model transcript *)
-Theorem sweep_monitor_fixed_sound (A : Type) (ops : app_ops A) (p : params) :
-  apps_total A ops ->
-  forall (apps : list A) (ins : list minput), ins_ok 0 ins ->
-  smonitor_fixed p (model_transcript A ops p apps ins) = [].
-Proof.
-  intros Happs apps ins Hok. unfold smonitor_fixed. destruct (builder_validb p) eqn:Eb; [|reflexivity].
-  apply builder_validb_valid in Eb. unfold model_transcript in *.
-  destruct (fdl_new p) as [f0| |] eqn:E0; try reflexivity.
-  rewrite smonitor_from_fixed_api by (intros _; exact (fdl_new_fresh _ _ E0)).
-  assert (HI : sweep_inv f0 (kind_of (f_state f0)) None) by (split; [reflexivity|discriminate]).
-  exact (smonitor_from_fixed_sound A ops p Happs Eb ins f0 apps [] 0 1%nat None
            (rj_new A p Eb _ _ _ E0 (Forall_nil _)) HI Hok).
 Qed.
 
@@ -522,8 +407,7 @@ Lemma sweep_example_accepted :
   builder_validb ex_sweep_params = true /\
   gap_polls_in KClaimToken 3 ex_sweep_tr = [4; 0; 1; 2] /\
   gap_polls_in KAwaitStatusResponse 3 ex_sweep_tr = [4; 0; 1; 2; 4; 0; 1; 2] /\
-  no_self_offline KOffline ex_sweep_tr = true /\
-  smonitor ex_sweep_params ex_sweep_tr = [] /\ smonitor_fixed ex_sweep_params ex_sweep_tr = [].
+  smonitor ex_sweep_params ex_sweep_tr = [].
 Proof. vm_compute. repeat split; reflexivity. Qed.
 
 (* (2) hand-made events: the same address polled twice in one polling phase (seeded change R5-C12-2: the cursor is
@@ -542,16 +426,13 @@ Lemma sweep_example_rejected :
   smonitor ex_sweep_params [EApi ApiNew ex_fresh; EApi ApiOnline ex_fresh; EApi ApiOffline ex_fresh] = [].
 Proof. vm_compute. repeat split; reflexivity. Qed.
 
-(* (3) THE FINDING: a MODEL transcript on which the monitor as it stands reports P12_sweep_order.  Station 3 (HSA 16)
-   claims the token, polls 4 in its post-claim scan (`last` = 4), gives the token up on a foreign token telegram,
-   hears its own address twice (ActiveIdle -> ListenToken), twice again: listen_token_telegram calls set_offline
-   INSIDE the poll (event 8: the view goes Offline, the cursor back to DoPoll{3}, no API event).  After set_online it
-   hears two identical rotations 2 -> 5 -> 2, answers the status request of 2, receives the token from 2 and polls 4
-   = TS + 1 - compared with the stale `last` = 4.  The repaired monitor accepts the transcript.  The same history on
-   the unmodified crate (harness, 0 divergences, ORACLE-FAIL C12 sweep_order):
-   FDL 3 1 100 16 1 80000 1 1 0 / ENV on per:8:8 run:53 run:3 inj:dc0809 run:1 inj:dc0903dc0903 run:1 inj:dc0903dc0903
-   run:1 on run:1 inj:dc0502 run:1 inj:dc0205 run:1 inj:dc0502 run:1 inj:dc0205 run:1 inj:dc0502 run:1 inj:dc0205 run:1
-   inj:100302494e16 run:4 inj:dc0302 run:1 run:6 *)
+(* (3) the corner that the first version of the monitor got wrong (see the head of this file), as a MODEL transcript.
+   Station 3 (HSA 16) claims the token, polls 4 in its post-claim scan (`last` = 4), gives the token up on a foreign
+   token telegram, hears its own address twice (ActiveIdle -> ListenToken), twice again: listen_token_telegram calls
+   set_offline INSIDE the poll (event 8: the view goes Offline out of ListenToken, the cursor back to DoPoll{3}, no
+   API event).  After set_online it hears two identical rotations 2 -> 5 -> 2, answers the status request of 2,
+   receives the token from 2 and polls 4 = TS + 1 again.  Accepted.  The same history on the crate:
+   corpus/fdl/sweep-recreated-in-poll.cases. *)
 Definition ex_fp_params : params := mkParams 3 B19200 100 80000 1 16 1 11 None.
 Definition ex_tk (da sa : Z) : bytes := [220; da; sa].
 Definition ex_fp_ins : list minput :=
@@ -570,13 +451,15 @@ Definition ex_fp_ins : list minput :=
   InPoll 104000 false [];
   InPoll 107000 false []].
 Definition ex_fp_tr : list FdlOracle.event := model_transcript unit unit_app_ops ex_fp_params [tt] ex_fp_ins.
+(* the kinds of the views of the transcript, to show the in-poll re-creation *)
+Definition view_kinds (events : list FdlOracle.event) : list state_kind :=
+  flat_map (fun e => match e with EApi _ v => [v_kind v] | EPoll s => [v_kind (s_view s)] | _ => [] end) events.
 
-Lemma sweep_false_positive :
+Lemma sweep_recreated_in_poll_accepted :
   builder_validb ex_fp_params = true /\ ins_ok 0 ex_fp_ins /\
   gap_polls_in KClaimToken 3 ex_fp_tr = [4] /\ gap_polls_in KAwaitStatusResponse 3 ex_fp_tr = [4] /\
-  no_self_offline KOffline ex_fp_tr = false /\
-  smonitor ex_fp_params ex_fp_tr = [(20%nat, P12_sweep_order)] /\
-  smonitor_fixed ex_fp_params ex_fp_tr = [].
+  firstn 3 (skipn 6 (view_kinds ex_fp_tr)) = [KActiveIdle; KListenToken; KOffline] /\
+  smonitor ex_fp_params ex_fp_tr = [].
 Proof.
   split; [vm_compute; reflexivity|]. split.
   { unfold ex_fp_ins, ex_tk, ins_ok, time_ok, all_bytes. repeat split; try lia; repeat constructor; unfold is_byte; lia. }
